@@ -912,6 +912,39 @@ theorem dotFree_root (segs : List Str) : DotFree ([] :: segs) ↔ DotFree segs :
     · simp [dot, dotdot]
     · exact h s hs
 
+/-- the same without any condition on the base path, against the NORMALISED RFC target (dot segments of an
+    inherited base path removed too - RFC 3986 6.2.2.3; the statement's "normalized result") -/
+theorem navigate_path_eq_normalized_rfc (b : URL) (segs : List Str) (r : Ref) (hr : RelRef r)
+    (hp : b.parts = [] :: segs) (hns : ∀ s ∈ segs, NoSlash s) (base : Ref)
+    (hauth : base.authority.isSome) (hpath : base.path = flat segs) :
+    joinSlash (resolvePathParts (relParts b r)) = removeDotSegments (resolve base r).path := by
+  rw [relParts_eq b r segs hp, resolvePathParts_root, joinSlash_root,
+    rfc_path_rel base segs r hr hauth hpath hns]
+  by_cases h1 : r.path = []
+  · simp only [h1, if_true]
+    rw [removeDotSegments_flat segs hns]
+    simp [relSegs, h1]
+  · simp only [h1, if_false]
+    have hns' := relSegs_noSlash segs r hns
+    rw [removeDotSegments_flat _ hns']
+    -- removing dot segments again changes nothing: the stack is slash-free and dot-free
+    have hroot := resolvePathParts_root (relSegs segs r)
+    have hdf : DotFree (process [] (relSegs segs r)) := by
+      have := resolvePathParts_dotFree ([] :: relSegs segs r)
+      rw [hroot] at this
+      exact (dotFree_root _).1 this
+    have hns2 : ∀ s ∈ process [] (relSegs segs r), NoSlash s := by
+      intro s hs
+      have hm : s ∈ resolvePathParts ([] :: relSegs segs r) := by rw [hroot]; simp [hs]
+      rcases resolvePathParts_mem _ s hm with h | h
+      · simp at h
+        rcases h with rfl | h
+        · simp [NoSlash]
+        · exact hns' s h
+      · subst h; simp [NoSlash]
+    rw [removeDotSegments_flat _ hns2, process_of_dotFree _ hdf]
+    simp
+
 theorem optQuery_roundtrip (o : Option Str) (h : CanonQ o) :
     dropEmpty (optOfStr (queryText (parseQsl (o.getD [])))) = dropEmpty o := by
   cases o with
